@@ -49,6 +49,43 @@ def _blocks_with(node, pred):
     return [b for b in node.walk() if isinstance(b, C.Block) and any(pred(s) for s in b.stmts)]
 
 
+def failed_cycle_not_resumed(run: Run, rule: str) -> None:
+    """A cycle that left evaluate_impl by exception must be ABANDONED: the next evaluate starts a fresh scan.
+
+    The cursor stays on the failing node (failed_node reads it), so `resuming` must be false after a failure:
+    (1) every exceptional exit of a node evaluation records evaluation_failed = true (or resets the cursor),
+    (2) `resuming` requires !evaluation_failed, (3) the flag is cleared only after `resuming` was computed."""
+    fa = R.fn(run, GRAPH, "evaluate_impl")
+    cn = R.aliases_of(fa)
+    st = cn.aliases.get("state", "state")
+    CUR, FAILED = st + ".evaluation_cursor", st + ".evaluation_failed"
+    fl = R.flow(run, fa)
+    d = R.find(fa, lambda n: isinstance(n, C.Declarator) and n.name == "resuming")
+    if len(d) != 1 or d[0].init is None:
+        raise AnalysisError("anchor-vanished", "evaluate_impl: `resuming` declaration")
+
+    def conjuncts(e):
+        while isinstance(e, C.Paren if hasattr(C, "Paren") else ()):
+            e = e.e
+        if isinstance(e, C.Binary) and e.op == "&&":
+            return conjuncts(e.l) + conjuncts(e.r)
+        return [cn(e).replace(" ", "")]
+    cj = conjuncts(d[0].init)
+    run.count(1, rule + ".resuming")
+    reset_on_throw = fl.nodes_of(R.store_is(re.escape(CUR), r"0|invalid_cursor", region=r".*(annotate|guard|catch).*"))
+    if "!" + FAILED not in cj and not reset_on_throw:
+        run.finding(rule, "evaluate_impl:failed-cycle-resumed", "a cycle that failed leaves the cursor on the failing node, and the next evaluate "
+                    f"resumes from it (resuming = {' && '.join(cj)}): after a captured failure in a nested graph the next cycle skips every node "
+                    "ranked before the failing one", loc=fa.loc(d[0]))
+    ev = R.call_is(name="evaluate", recv=r"node_view")
+    failed_true = R.either(R.store_is(re.escape(FAILED), r"true"), R.store_is(re.escape(CUR), r"0|invalid_cursor"))
+    R.k2_follow(run, rule, fl, ev, failed_true, "a node evaluation that throws records the cycle as failed before the exception leaves",
+                exits="exc", after="thrown", a_floor=2)
+    decl = lambda n: n.kind == "decl" and n.decl == "resuming"
+    clear = R.store_is(re.escape(FAILED), r"false")
+    R.k2_precede(run, rule, fl, decl, clear, "the failed flag of the previous cycle is read (resuming) before it is cleared")
+
+
 def check(run: Run) -> None:
     t = run.tree
 
@@ -347,6 +384,9 @@ def check(run: Run) -> None:
             if in_main and not any(isinstance(x, C.Lambda) and R._contains(x, s) for x in main[0].walk()):
                 run.finding("C01.d", "evaluate_impl:cursor-write-in-scan", f"the main scan writes its own cursor: {CUR} = {v}", loc=fa.loc(s))
 
+    with run.obligation("C01.d2", "K2", "a failed cycle is abandoned: the next evaluate never resumes from the failing node's cursor"):
+        failed_cycle_not_resumed(run, "C01.d2")
+
     # ---- e. the graph scan is the only evaluator ----------------------------------------------------------------
     with run.obligation("C01.e", "K4", "a graph's own nodes are evaluated only from evaluate_impl; NodeView::evaluate is the only caller of "
                         "the node ops evaluate slot"):
@@ -410,6 +450,9 @@ def check(run: Run) -> None:
 
 
 VARIANTS = [
+    {"id": "d2-revert-fix-failed-cycle-resumed", "expect": "C01.d2", "edits": [{"file": GRAPH, "find": "      !state.evaluation_failed && state.evaluation_cursor != 0 &&\n      state.evaluation_cursor != invalid_cursor;", "replace": "      state.evaluation_cursor != 0 && state.evaluation_cursor != invalid_cursor;"}]},
+    {"id": "d2-flag-cleared-before-read", "expect": "C01.d2", "edits": [{"file": GRAPH, "find": "  const bool resuming =\n      !state.evaluation_failed && state.evaluation_cursor != 0 &&\n      state.evaluation_cursor != invalid_cursor;\n\n  state.evaluation_time = evaluation_time;\n  state.evaluation_failed = false;", "replace": "  state.evaluation_failed = false;\n  const bool resuming =\n      !state.evaluation_failed && state.evaluation_cursor != 0 &&\n      state.evaluation_cursor != invalid_cursor;\n\n  state.evaluation_time = evaluation_time;"}]},
+    {"id": "d2-nested-failure-not-flagged", "expect": "C01.d2", "edits": [{"file": GRAPH, "find": "            [&] { state.evaluation_failed = true; });", "replace": "            [&] { static_cast<void>(state); });"}]},
     {"id": "a-unpaired-consumer", "expect": "C01.a", "edits": [{"file": WIRING, "find": "      for (const WiringInstance *producer : producers) {\n        ++indegree[instance];\n        consumers[producer].push_back(instance);\n      }\n    }\n    for (const WiringInstance *producer : instance->rank_dependencies) {", "replace": "      for (const WiringInstance *producer : producers) {\n        ++indegree[instance];\n      }\n    }\n    for (const WiringInstance *producer : instance->rank_dependencies) {"}]},
     {"id": "a-ready-at-one", "expect": "C01.a", "edits": [{"file": WIRING, "find": "if (--indegree[consumer] == 0) {", "replace": "if (--indegree[consumer] <= 1) {"}]},
     {"id": "a-skip-sinks", "expect": "C01.a", "edits": [{"file": WIRING, "find": "      if (!input.rank_dependency) {\n        continue;\n      }\n      std::vector<const WiringInstance *> producers;\n      collect_producers(input.source, producers, owned);\n      for (const WiringInstance *producer : producers) {\n        ++indegree[instance];", "replace": "      if (!input.rank_dependency || instance->inputs.size() > 8) {\n        continue;\n      }\n      std::vector<const WiringInstance *> producers;\n      collect_producers(input.source, producers, owned);\n      for (const WiringInstance *producer : producers) {\n        ++indegree[instance];"}]},
